@@ -872,9 +872,11 @@ static void sc_persist(void) {
    * restart: coap_persist_startup() on the files, a notification to the restored observer, a
    * GET on the restored resource, coap_persist_stop(), tear-down */
   char f_dyn[96], f_obs[96], f_val[96];
-  snprintf(f_dyn, sizeof(f_dyn), "/var/tmp/verif.c18.%d.dyn", (int)getpid());
-  snprintf(f_obs, sizeof(f_obs), "/var/tmp/verif.c18.%d.obs", (int)getpid());
-  snprintf(f_val, sizeof(f_val), "/var/tmp/verif.c18.%d.val", (int)getpid());
+  /* fixed-length names (zero-padded pid): the library copies them, so their length is an
+   * allocation size and must not depend on the number of digits of the pid */
+  snprintf(f_dyn, sizeof(f_dyn), "/var/tmp/verif.c18.%010d.dyn", (int)getpid());
+  snprintf(f_obs, sizeof(f_obs), "/var/tmp/verif.c18.%010d.obs", (int)getpid());
+  snprintf(f_val, sizeof(f_val), "/var/tmp/verif.c18.%010d.val", (int)getpid());
   prologue(COAP_BLOCK_USE_LIBCOAP | COAP_BLOCK_SINGLE_BODY);
   fa_armed = 0;
   int ok = coap_persist_startup(W.srv, f_dyn, f_obs, f_val, 1);
@@ -1640,7 +1642,7 @@ static void run_fa(void) {
     static const char *ext[] = {"dyn", "obs", "val", "obs.tmp", "dyn.tmp", "val.tmp"};
     char fn[96];
     for (unsigned i = 0; i < sizeof(ext) / sizeof(ext[0]); i++) {
-      snprintf(fn, sizeof(fn), "/var/tmp/verif.c18.%d.%s", (int)pid, ext[i]);
+      snprintf(fn, sizeof(fn), "/var/tmp/verif.c18.%010d.%s", (int)pid, ext[i]);
       if (!getenv("FA_KEEP")) remove(fn);
     }
   }
